@@ -488,6 +488,7 @@ theorem handle_stake_signInv (s s' : State) (k : Nat) (amt : Int) (hi : SignInv 
         match send { s with rel := if s.rel.contains a then s.rel else a :: s.rel } a s.pool amt with
         | none => none
         | some s1 =>
+          if (!v.jailed && !Arith.isInt64 (power (v.tokens + amt))) = true then none else
           some (if (aget (setStaked (setVal s1 a { v with tokens := v.tokens + amt, status := 2 }) a
                     { v with tokens := v.tokens + amt, status := 2 }).sign a).isSome
                 then setStaked (setVal s1 a { v with tokens := v.tokens + amt, status := 2 }) a
@@ -516,6 +517,8 @@ theorem handle_stake_signInv (s s' : State) (k : Nat) (amt : Int) (hi : SignInv 
   split at h
   · cases h
   rename_i s1 hs1
+  split at h
+  · cases h
   injection h with h
   have hf := send_frame _ _ _ _ _ hs1
   have hv1 := send_vals _ _ _ _ _ hs1
@@ -597,6 +600,8 @@ theorem handle_signInv (s s' : State) (m : Msg) (hi : SignInv s) (h : handle s m
     split at h
     · cases h
     rename_i htomb
+    split at h
+    · cases h
     split at h
     · cases h
     injection h with h
@@ -721,6 +726,10 @@ theorem step_signOK (s : State) (op : Op) (r : State × List (Addr × Int) × Bo
   | tx mode t =>
     simp only [step] at hs
     injection hs with hs; subst hs
-    exact runTx_signInv s mode t hi
+    have hr := runTx_signInv s mode t hi
+    show SignInv (if mode == .deliver then _ else _)
+    split
+    · exact (valsStep_of_eq _ _ rfl rfl rfl).signInv hr
+    · exact hr
 
 end Posmint.Chain.C
